@@ -260,6 +260,9 @@ def C10(c):
     if exe:
         c.add_suite(run_suite(exe, "ctor", c.seed, c.tier, "C10-ctor"), sig_method)
         c.add_suite(run_suite(exe, "indapi", c.seed, c.tier, "C10-indicators", ["--which", "params"]), sig_method)
+        # accepted instances must not panic however long they run (the same long streams as C07, panics only)
+        c.add_suite(run_suite(exe, "indapi", c.seed, c.tier, "C10-long", ["--which", "long"]), sig_method,
+                    only=lambda mm: "long_no_panic" in mm.get("sub", "") or "long_no_panic" in mm.get("raw", ""))
     rel = need_harness(c, release=True)
     if rel:
         r = run_suite(rel, "ctor", c.seed, c.tier, "C10-ctor-release")
@@ -467,7 +470,7 @@ def C07(c):
     return c.finish(
         level="proof",
         trusted=TRUSTED_COMMON + NUMERIC_TRUST + [
-            "indicators: every indicator (default + one random configuration) runs 9 000 (thorough 150 000) candles through volatile / "
+            "indicators: every indicator (default + one random configuration) runs 20 000 (thorough 1 000 000) candles through volatile / "
             "flat / long one-directional ramps / 1e6 / 1e-3 / zero-volume regimes and must not panic; at late positions the result "
             "must agree (values to 1e-6 relative, signals exactly when the values are bit-identical) with a fresh instance started "
             "80x(total period)+400 candles earlier; the parabolic SAR and explicitly cumulative configurations (window = 0) have "
